@@ -172,6 +172,10 @@ def build_dtypes():
     add('uint65', 65, 'int', _uint(65), [0, (1 << 65) - 1, 12345678901234567890])
     add('e3m2mxfp', 6, 'float', _mini('e3m2mxfp'), [1.0, -28.0, 0.25], True)
     add('uint12', 12, 'int', _uint(12), [0, 4095, 2730])
+    add('uint16', 16, 'int', _uint(16), [0, 65535, 258])
+    add('int32', 32, 'int', _int(32), [-(1 << 31), 5, -1], True)
+    add('uintbe16', 16, 'int', _uint(16), [1, 2, 3])
+    add('uint1', 1, 'int', _uint(1), [1, 0, 1])
     return D
 
 
